@@ -11,10 +11,12 @@ ls -d $V/seeded/C??-* | sed 's#.*/##' > $OUT/list
 run_one() {
   d=$1; V=$2; OUT=$3; slot=$4
   id=${d%%-*}
+  if grep -q "^$d " $V/seeded/superseded.txt 2>/dev/null; then echo "$d superseded"; return; fi
   wt=/tmp/regress-wt-$slot
   git -C /repo worktree remove --force $wt >/dev/null 2>&1
   git -C /repo worktree add -q --detach $wt HEAD || { echo "$d worktree-failed"; return; }
-  if git -C $wt apply $V/seeded/$d/patch.diff 2>/dev/null || git -C $wt apply --3way $V/seeded/$d/patch.diff >/dev/null 2>&1 || { [ -f $V/seeded/$d/patch-rebased.diff ] && git -C $wt apply $V/seeded/$d/patch-rebased.diff 2>/dev/null; }; then
+  if git -C $wt apply $V/seeded/$d/patch.diff 2>/dev/null || git -C $wt apply --3way $V/seeded/$d/patch.diff >/dev/null 2>&1 || { [ -f $V/seeded/$d/patch-rebased.diff ] && git -C $wt apply $V/seeded/$d/patch-rebased.diff 2>/dev/null; } \
+     || { git -C $wt checkout -q -- . && (cd $wt && patch -p1 -s -F3 --no-backup-if-mismatch -r - < $V/seeded/$d/patch.diff >/dev/null 2>&1) && (cd $wt && GOFLAGS=-mod=mod go build ./... 2>/dev/null); }; then
     checks=$id
     case $d in C05-w2-2) checks="C05 C12";; C11-2) checks="C04";; C08-w5-2) checks="C08 C06";; C12-w5-1) checks="C12 C17";; esac
     res=missed
